@@ -621,7 +621,7 @@ def rule_type_change_opens_frame(res, rid, m):
     return n
 
 
-def rule_fit_decided_on_fresh_frame(res, rid, m):
+def rule_fit_decided_on_fresh_frame(res, rid, m, placement=False):
     """C08-R4: the fit checker's positive answer is computed after a frame was opened on
     that path, and its test reads sizeof(MessageHeader) + payload length against the free bytes."""
     f = m.fit_checker
@@ -681,6 +681,33 @@ def rule_fit_decided_on_fresh_frame(res, rid, m):
                 if fl is not None and fh is not None and fl.get("free") == 1 and set(fl) <= {"free", 1} and fl.get(1, 0) == 0 and \
                         fh.get("len") == 1 and fh.get(1, 0) == m.fb.record(MH)["size"] and set(fh) <= {"len", 1}:
                     exact = True
+        if placement and not getattr(res, "_fit_tests_done", False):
+            res._fit_tests_done = True
+            # every place where the fit checker compares the free bytes with the packet's length — also the first test, which decides
+            # whether the packet goes into the current frame or a new one is opened — draws the line at the same exact boundary
+            hdrs = m.fb.record(MH)["size"]
+            for t in f.nodes():
+                if t.get("k") == "bin" and t.get("op") in ("<", ">", "<=", ">="):
+                    fl, fh = _linear(f, t["l"], syms), _linear(f, t["r"], syms)
+                    if fl is None or fh is None:
+                        continue
+                    d = dict(fl)
+                    for k2, v2 in fh.items():
+                        d[k2] = d.get(k2, 0) - v2
+                    if not (d.get("free") and d.get("len")):
+                        continue
+                    op = t["op"]
+                    if d["free"] < 0:
+                        d = {k2: -v2 for k2, v2 in d.items()}
+                        op = {"<": ">", "<=": ">=", ">": "<", ">=": "<="}[op]
+                    # free - len + c  op  0
+                    c0 = d.get(1, 0)
+                    okb = d.get("free") == 1 and d.get("len") == -1 and set(d) <= {"free", "len", 1} and \
+                        ((op == "<" and c0 == -hdrs) or (op == "<=" and c0 == -hdrs + 1) or (op == ">=" and c0 == -hdrs) or (op == ">" and c0 == -hdrs + 1))
+                    res.check(okb, rid, "fit:test@%s" % (t.get("loc") or "").split(":", 1)[-1], t.get("loc"),
+                              "fits exactly when free >= %d + payload length" % hdrs,
+                              "the fit checker compares the free bytes with the payload length as `%s`, not at `free < %d + payload length`: a packet that "
+                              "exactly fills the rest of the current frame is not appended to it (or one that does not fit is)" % (canon(t)[:120], hdrs))
         res.check(exact, rid, "fit:exact-boundary", r.get("loc"), "does-not-fit test is exactly `free < %d + payload length`" % m.fb.record(MH)["size"],
                   "the fit test `%s` is not exactly `free bytes < sizeof(MessageHeader) + payload length`: packets at the fit boundary are split or overflow" % canon(v)[:160])
         oktest = oktest and exact
@@ -1385,7 +1412,7 @@ def rule_header_fully_stamped(res, rid, m):
     return n
 
 
-def rule_writes_inside_frame(res, rid, m):
+def rule_writes_inside_frame(res, rid, m, placement=False):
     """C07-R6: the free-byte count never underflows and every write lands inside the frame:
     (a) on every path through the loop body the message header is written only when >= 16
         bytes are free: the path either took the `bytesLeft < sizeof(MessageHeader)` test as
@@ -1456,6 +1483,11 @@ def rule_writes_inside_frame(res, rid, m):
                     res.check(not nar, rid, "chunk:room-at-full-width", c.get("loc"), "free - %d reaches min() without narrowing" % hdr,
                               "the room left in the frame is converted to %s bits before min(): with frames larger than 64 KiB it wraps and a packet that "
                               "fits is cut into pieces that are all flagged unsegmented" % ((nar[0].get("t") or {}).get("bits") if nar else "?"))
+    if okmin and placement:
+        exact_room = any(strip_all_casts(a2).get("k") == "bin" and strip_all_casts(a2).get("op") == "-" and strip_all_casts(strip_all_casts(a2)["l"]).get("field") == m.bytesLeft and
+                         const_value(strip_all_casts(a2)["r"]) == hdr for a2 in e.get("args", []))
+        res.check(exact_room, rid, "chunk:fills-the-frame", c.get("loc"), "the room offered to min() is all of free - %d" % hdr,
+                  "the chunk is bounded by less than the free bytes minus the %d-byte message header: segments other than the last do not fill their frame to the maximum" % hdr)
     res.check(okmin, rid, "chunk:bounded-by-room", c.get("loc"), "chunk = min(free - %d, ...)" % hdr,
               "the chunk length is not bounded by the free bytes minus the %d-byte message header" % hdr)
     decs = [x for x in m.header_writer.nodes() if x.get("k") == "cassign" and x.get("op") == "-" and lvalue_root(x["l"]) == m.bytesLeft]
